@@ -39,6 +39,12 @@ def check(model: Model, rep: Report, tier: str):
         u4(model, rep)
     with rep.isolated():
         u5(model, rep)
+    with rep.isolated():
+        from .c03 import h7 as _h7
+        from ..effects import Effects as _Eff
+        from ..resolve import CallGraph as _CG
+        _cg = _CG(model)
+        _h7(model, rep, _cg, _Eff(model, _cg), rule="C06.U7", keep=lambda f: "/structure/" in f.module.relpath)
     from .common import instance_state_rule
     with rep.isolated():
         instance_state_rule(model, rep, "C06.U6", "the count a block is unrolled into is the one ITS registry provides: the table of a repetition registry (and any state of a "
